@@ -9,6 +9,7 @@ pub fn gen_case(fam: &str, r: &mut Rng, i: u64, p: &HashMap<String, String>) -> 
     match fam {
         "c02" => c02(r, i, p),
         "c03" => c03(r, i, p),
+        "c04" => c04(r, i, p),
         _ => vec![],
     }
 }
@@ -45,4 +46,65 @@ fn c03(r: &mut Rng, i: u64, p: &HashMap<String, String>) -> Vec<Value> {
     let wm = wmax(p, 200);
     let w = if r.chance(2, 3) { r.range(1, 40.min(wm)) } else { r.range(1, wm) };
     vec![json!({"id": id("c03", i), "runs": [run(&html, w, cfg(deco, ops), route)]})]
+}
+
+/// C04: one paragraph = words split arbitrarily across text nodes and inline elements; bare, under
+/// max_wrap_width, or inside one prefixed block.  Decorators without inline affixes.
+fn c04(r: &mut Rng, i: u64, _p: &HashMap<String, String>) -> Vec<Value> {
+    let nwords = if r.chance(1, 3) { r.range(1, 60) } else { r.range(1, 8) };
+    let alpha: Vec<char> = "abcdefghijklmnopqrstuvwxyz".chars().collect();
+    // a flat list of pieces: word characters and separators, then cut into inline structure
+    let mut pieces: Vec<String> = Vec::new();
+    if r.chance(1, 4) { pieces.push(" ".into()); }
+    for k in 0..nwords {
+        if k > 0 { pieces.push(match r.below(8) { 0 => "  ".into(), 1 => "\n".into(), 2 => "\t ".into(), 3 => " \n  ".into(), _ => " ".into() }); }
+        let len = if r.chance(1, 8) { r.range(8, 30) } else { r.range(1, 7) };
+        let mut wd = String::new();
+        let mut wsum = 0;
+        while wsum < len {
+            match r.below(12) { 0 => { wd.push(*r.pick(&['一', '語', '🎉'])); wsum += 2; }
+                                1 if !wd.is_empty() => { wd.push('\u{301}'); }
+                                _ => { wd.push(*r.pick(&alpha)); wsum += 1; } }
+        }
+        // split the word itself across nodes sometimes
+        if wd.chars().count() > 1 && r.chance(1, 4) {
+            let cut = r.range(1, wd.chars().count() as u64 - 1) as usize;
+            let a: String = wd.chars().take(cut).collect(); let b: String = wd.chars().skip(cut).collect();
+            pieces.push(a); pieces.push(b);
+        } else { pieces.push(wd); }
+    }
+    if r.chance(1, 4) { pieces.push(" ".into()); }
+    // group consecutive pieces into text nodes / inline elements
+    fn build(r: &mut Rng, pieces: &[String], depth: u32) -> Vec<N> {
+        let mut out = Vec::new();
+        let mut k = 0;
+        while k < pieces.len() {
+            let take = 1 + r.below(4.min((pieces.len() - k) as u64)) as usize;
+            let chunk = &pieces[k..k + take];
+            k += take;
+            if depth < 3 && r.chance(1, 3) {
+                let name = *r.pick(&["em", "strong", "code", "span", "a", "i"]);
+                let kids = build(r, chunk, depth + 1);
+                out.push(if name == "a" { N::ela("a", vec![("href", "//0.0/1".to_string())], kids) } else { N::el(name, kids) });
+            } else {
+                let t: String = chunk.concat();
+                if let Some(N::T(prev)) = out.last_mut() { prev.push_str(&t); } else { out.push(N::T(t)); }
+            }
+        }
+        out
+    }
+    let inl = build(r, &pieces, 0);
+    let kind = r.below(4);
+    let deco = if kind >= 2 { "rich" } else { *r.pick(&["rich", "trivial"]) };
+    let (body, pw) = match kind {
+        2 => (vec![N::el("blockquote", vec![N::el("p", inl)])], 2u64),
+        3 => (vec![N::el("ul", vec![N::el("li", vec![N::el("p", inl)])])], 2),
+        _ => (vec![N::el("p", inl)], 0),
+    };
+    let mut ops = vec![];
+    let mut m: i64 = -1;
+    if r.chance(1, 3) { m = r.range(1, 40) as i64; ops.push(json!(["max_wrap", m])); }
+    let w = if pw > 0 { r.range(pw + 5, 40) } else { r.range(1, 40) };
+    let html = doc_html(&body);
+    vec![json!({"id": id("c04", i), "meta": {"pw": pw, "m": m}, "runs": [run(&html, w, cfg(deco, ops), "string")]})]
 }
